@@ -3,6 +3,7 @@ Soundness of the C13 stream specification as an oracle: whatever `nextUnit` / `p
 concatenation of complete units (the converse of `parseStream_concat`).
 -/
 import IpcHub.Lemmas.Writers
+import IpcHub.Lemmas.WritersLts
 namespace IpcHub.Writers
 open IpcHub.InterleaveSpec
 
@@ -131,5 +132,31 @@ theorem parseStream_sound (fuel : Nat) (s : Bytes) (us : List InterleaveSpec.Uni
             rcases hv with rfl | hv
             · exact h2
             · exact h4 v hv
+
+theorem isSubseq_refl (l : List (UInt8 × List UInt8)) : isSubseq l l = true := by
+  induction l with
+  | nil => rfl
+  | cons x xs ih => simp [isSubseq, ih]
+
+/-- the frames among the units of the completed sections are those of goroutine 0, when every other
+    goroutine sends responses only -/
+theorem frames_of_done (jobs : Nat → List Job) (unit : Job → InterleaveSpec.Unit) (done : List (Nat × Job))
+    (hmem : ∀ p ∈ done, p.2 ∈ jobs p.1)
+    (hresp : ∀ t, t ≠ 0 → ∀ j ∈ jobs t, ∃ r, unit j = .response r) :
+    framesOf (done.map (fun p => unit p.2)) = framesOf ((doneOf done 0).map unit) := by
+  induction done with
+  | nil => rfl
+  | cons p rest ih =>
+    have ih' := ih (fun q hq => hmem q (by simp [hq]))
+    by_cases hp : p.1 = 0
+    · have : doneOf (p :: rest) 0 = p.2 :: doneOf rest 0 := by simp [doneOf, hp]
+      rw [this]
+      simp only [List.map_cons, framesOf, List.filterMap_cons] at ih' ⊢
+      cases hu : unit p.2 <;> simp [ih']
+    · have : doneOf (p :: rest) 0 = doneOf rest 0 := by simp [doneOf, hp]
+      rw [this]
+      obtain ⟨r, hr⟩ := hresp p.1 hp p.2 (hmem p (by simp))
+      simp only [List.map_cons, framesOf, List.filterMap_cons, hr] at ih' ⊢
+      exact ih'
 
 end IpcHub.Writers
